@@ -672,3 +672,118 @@ Proof.
         rewrite Hne. rewrite !orb_false_r. reflexivity.
       * rewrite IH by exact ND'. reflexivity.
 Qed.
+
+(* ================= ascii faces ================= *)
+Definition istep (k ip : nat) (lt : sty) (ws : list N) (st : fstate) : fstate :=
+  if Nat.eqb k ip then
+    {| fs_ibuf := overwrite (map (idx_ascii lt) ws) (fs_ibuf st); fs_tbuf := fs_tbuf st; fs_points := Z.of_nat (length ws) |}
+  else st.
+Fixpoint ifold (rs : list (sty * sty)) (f : list (list N)) (k ip : nat) (st : fstate) : fstate :=
+  match rs, f with
+  | (_, lt) :: rs', ws :: f' => ifold rs' f' (S k) ip (istep k ip lt ws st)
+  | _, _ => st
+  end.
+
+Lemma tok_int_index lt w : index_ty_ok lt = true -> tok_int (tok_of_word lt w) = Some (idx_ascii lt w).
+Proof. destruct lt; try discriminate; reflexivity. Qed.
+
+Lemma mapR_tok_int lt ws : index_ty_ok lt = true ->
+  mapR (fun t => of_opt EDeclared (tok_int t)) (map (tok_of_word lt) ws) = Ok (map (idx_ascii lt) ws).
+Proof.
+  intros I. induction ws as [|w ws IH]; [reflexivity|].
+  cbn [map]. rewrite mapR_cons, (tok_int_index lt w I). cbn [of_opt rbind]. rewrite IH. reflexivity.
+Qed.
+
+Lemma face_ascii_cons_enc ct lt rs k ip ws rest st :
+  (k = ip -> index_ty_ok lt = true /\ (length ws <= 4)%nat) ->
+  face_ascii ((ct, lt) :: rs) k ip None (enc_list_ascii lt ws ++ rest) st =
+  face_ascii rs (S k) ip None rest (istep k ip lt ws st).
+Proof.
+  intros H. unfold enc_list_ascii. cbn [app face_ascii tok_int of_opt rbind].
+  replace (Z.of_nat (length ws) <? 0)%Z with false by (symmetry; apply Z.ltb_ge; lia).
+  replace (Z.of_nat (length (map (tok_of_word lt) ws ++ rest)) <? Z.of_nat (length ws))%Z with false
+    by (symmetry; apply Z.ltb_ge; rewrite app_length, map_length; lia).
+  cbn [orb]. rewrite Nat2Z.id.
+  assert (F1 : firstn (length ws) (map (tok_of_word lt) ws ++ rest) = map (tok_of_word lt) ws)
+    by (rewrite <- (map_length (tok_of_word lt) ws); apply firstn_app_exact).
+  assert (F2 : skipn (length ws) (map (tok_of_word lt) ws ++ rest) = rest)
+    by (rewrite <- (map_length (tok_of_word lt) ws); apply skipn_app_length).
+  rewrite F1, F2.
+  unfold istep. cbn [nat_eqb_opt]. destruct (Nat.eqb k ip) eqn:E; cbn [rbind]; [|reflexivity].
+  apply Nat.eqb_eq in E. destruct (H E) as [I L].
+  replace (4 <? Z.of_nat (length ws))%Z with false by (symmetry; apply Z.ltb_ge; lia).
+  rewrite (mapR_tok_int lt ws I). reflexivity.
+Qed.
+
+Lemma face_ascii_enc ip : forall rs f k st rest,
+  length f = length rs ->
+  (forall ct lt, (k <= ip)%nat -> nth_error rs (ip - k) = Some (ct, lt) ->
+                 index_ty_ok lt = true /\ (length (nth (ip - k) f []) <= 4)%nat) ->
+  face_ascii rs k ip None (enc_face_ascii rs f ++ rest) st = Ok (ifold rs f k ip st).
+Proof.
+  induction rs as [|[ct lt] rs IH]; intros f k st rest L H.
+  - destruct f; [reflexivity|discriminate].
+  - destruct f as [|ws f]; [discriminate|].
+    unfold enc_face_ascii. cbn [combine flat_map]. rewrite <- app_assoc.
+    rewrite face_ascii_cons_enc.
+    + cbn [ifold]. apply IH; [simpl in L; lia|].
+      intros ct' lt' Hk N. specialize (H ct' lt').
+      replace (ip - k)%nat with (S (ip - S k)) in H by lia. cbn [nth_error nth] in H. apply H; [lia|exact N].
+    + intros ->. specialize (H ct lt (le_n _)). rewrite Nat.sub_diag in H. cbn [nth_error nth] in H. apply H. reflexivity.
+Qed.
+
+Lemma ifold_after ip : forall rs f k st, (ip < k)%nat -> ifold rs f k ip st = st.
+Proof.
+  induction rs as [|[ct lt] rs IH]; intros f k st Hk; [reflexivity|].
+  destruct f as [|ws f]; [reflexivity|]. cbn [ifold]. unfold istep.
+  replace (Nat.eqb k ip) with false by (symmetry; apply Nat.eqb_neq; lia). apply IH. lia.
+Qed.
+
+Lemma ifold_index ip : forall rs f k st ct lt,
+  (k <= ip)%nat -> length f = length rs -> nth_error rs (ip - k) = Some (ct, lt) ->
+  ifold rs f k ip st = istep ip ip lt (nth (ip - k) f []) st.
+Proof.
+  induction rs as [|[ct0 lt0] rs IH]; intros f k st ct lt Hk L N.
+  - destruct (ip - k)%nat; discriminate.
+  - destruct f as [|ws f]; [discriminate|]. cbn [ifold].
+    destruct (Nat.eq_dec k ip) as [->|Hne].
+    + rewrite Nat.sub_diag in *. cbn [nth_error nth] in *. injection N as -> ->.
+      apply ifold_after. lia.
+    + assert (Es : istep k ip lt0 ws st = st)
+        by (unfold istep; replace (Nat.eqb k ip) with false by (symmetry; apply Nat.eqb_neq; exact Hne); reflexivity).
+      rewrite Es.
+      replace (ip - k)%nat with (S (ip - S k)) in * by lia. cbn [nth_error nth] in *.
+      apply (IH f (S k) st ct lt); [lia | simpl in L; lia | exact N].
+Qed.
+
+Lemma face_out_fan_ascii ip lt ws st :
+  (length ws = 3%nat \/ length ws = 4%nat) ->
+  face_out false (istep ip ip lt ws st) = Ok (fan_tris (map (idx_ascii lt) ws), []).
+Proof.
+  unfold istep. rewrite Nat.eqb_refl. intros [L|L].
+  - destruct ws as [|a [|b [|c [|? ?]]]]; try discriminate L. reflexivity.
+  - destruct ws as [|a [|b [|c [|d [|? ?]]]]]; try discriminate L. reflexivity.
+Qed.
+
+(* QUAD FAN, ascii: one face per line *)
+Theorem quad_fan_ascii_proof : forall rs ip ct lt (fs : list (list (list N))) st,
+  rs <> [] -> nth_error rs ip = Some (ct, lt) -> index_ty_ok lt = true ->
+  Forall (fun f => length f = length rs /\ (length (nth ip f []) = 3%nat \/ length (nth ip f []) = 4%nat)) fs ->
+  faces_ascii rs ip None (map (enc_face_ascii rs) fs) (length fs) st =
+  Ok (flat_map (fun f => fan_tris (map (idx_ascii lt) (nth ip f []))) fs, []).
+Proof.
+  intros rs ip ct lt fs st NE N I F. revert st.
+  induction F as [|f fs [L L34] F IH]; intros st; [reflexivity|].
+  cbn [length map faces_ascii].
+  assert (Hne : enc_face_ascii rs f <> []).
+  { destruct rs as [|[c0 l0] rs]; [congruence|]. destruct f as [|ws f]; [discriminate|].
+    unfold enc_face_ascii, enc_list_ascii. cbn [combine flat_map app]. discriminate. }
+  destruct (enc_face_ascii rs f) as [|tk l] eqn:E; [congruence|]. rewrite <- E.
+  rewrite <- (app_nil_r (enc_face_ascii rs f)).
+  rewrite (face_ascii_enc ip rs f 0 st [] L).
+  - cbn [rbind]. rewrite (ifold_index ip rs f 0 st ct lt); [|lia|exact L|rewrite Nat.sub_0_r; exact N].
+    rewrite Nat.sub_0_r, (face_out_fan_ascii ip lt _ st L34). cbn [rbind].
+    rewrite IH. cbn [rbind]. rewrite app_nil_r. reflexivity.
+  - intros ct' lt' _ N'. rewrite Nat.sub_0_r in *. rewrite N in N'. injection N' as <- <-.
+    split; [exact I|]. destruct L34 as [->| ->]; lia.
+Qed.
